@@ -27,6 +27,9 @@ REG_FIELDS = ('op_out', 'op_out_like', 'array_op_out', 'array_op_out_like')
 SITES = ('on_status_overflow', 'on_status_underflow', 'on_status_inaccuracy', 'on_value_change')
 
 
+from fxpmath.callbacks import Callback as _LibCallback      # noqa: E402  (imported through .lib: /repo's)
+
+
 class SimFault(Exception):
     """Raised by a simulator-owned callback (fault F3)."""
 
@@ -48,6 +51,9 @@ class HarnessError(Exception):
 _CUR = [None]  # the world currently executing (callbacks find it here; never two at once)
 
 
+SITES_ALL = ('on_status_overflow', 'on_status_underflow', 'on_status_inaccuracy', 'on_value_change')
+
+
 class SimCallback(object):
     """Recording callback owned by the simulator.  Deep copies made by the library (like=,
     deepcopy, templates) become fresh, unarmed recorders registered with the same world."""
@@ -62,6 +68,7 @@ class SimCallback(object):
         self.label = cid
         self.retired = False  # taken out of its object's list by the caller: owed no notification
         self.nocopy = False   # a handler that cannot be deep-copied (fault F2: derivations from its object are rejected)
+        self.set_sites(SITES_ALL)  # the handlers this callback implements
 
     def __eq__(self, other):
         return isinstance(other, SimCallback) and other.label == self.label
@@ -77,7 +84,8 @@ class SimCallback(object):
         if self.nocopy:
             w.bump('fault_F2_uncopyable_callback_hit')
             raise SimCopyFault("cannot pickle '_thread.lock' object")
-        c = SimCallback(w.new_cid(), clone_of=self.cid)
+        c = type(self)(w.new_cid(), clone_of=self.cid)
+        c.set_sites(self.sites)
         # a STRICT handler (one that raises whenever it is notified at its site) is strict by its
         # code, not by a one-shot arming: the copies the library makes of it are strict too
         for site, act in self.armed.items():
@@ -89,17 +97,33 @@ class SimCallback(object):
     def __copy__(self):
         return self
 
-    def on_status_overflow(self, obj, logs=None):
-        _CUR[0].cb_fire(self, 'on_status_overflow', obj)
+    def set_sites(self, sites):
+        self.sites = tuple(x for x in SITES_ALL if x in sites)
 
-    def on_status_underflow(self, obj, logs=None):
-        _CUR[0].cb_fire(self, 'on_status_underflow', obj)
+    # The four handlers are not class attributes: a callback implements the subset named in
+    # `self.sites` (all four by default), and the library asks with hasattr() before it calls.
+    def __getattr__(self, name):
+        if name in SITES_ALL:
+            if name in self.__dict__.get('sites', SITES_ALL):
+                def handler(obj, logs=None, _self=self, _site=name):
+                    _CUR[0].cb_fire(_self, _site, obj)
+                return handler
+        raise AttributeError(name)
 
-    def on_status_inaccuracy(self, obj, logs=None):
-        _CUR[0].cb_fire(self, 'on_status_inaccuracy', obj)
 
-    def on_value_change(self, obj, logs=None):
-        _CUR[0].cb_fire(self, 'on_value_change', obj)
+class SimCallbackDerived(SimCallback, _LibCallback):
+    """The other way of writing a callback: an instance of the library's own `Callback` base class
+    (which has an empty handler for every event) with the handlers it implements attached to the
+    INSTANCE; for the events it does not implement the base class's empty handler answers."""
+
+    def set_sites(self, sites):
+        for x in SITES_ALL:
+            self.__dict__.pop(x, None)
+        self.sites = tuple(x for x in SITES_ALL if x in sites)
+        for x in self.sites:
+            def handler(obj, logs=None, _self=self, _site=x):
+                _CUR[0].cb_fire(_self, _site, obj)
+            self.__dict__[x] = handler
 
 
 class Slot(object):
@@ -676,13 +700,24 @@ class World(object):
     def obj(self, i):
         return self.slots[i].obj
 
-    def make_cbs(self, n):
+    def make_cbs(self, n, sites=None):
         out = []
-        for _ in range(n):
-            c = SimCallback(self.new_cid())
+        for j in range(n):
+            ss = sites[j % len(sites)] if sites else None
+            derived = bool(ss) and 'derived' in ss
+            c = (SimCallbackDerived if derived else SimCallback)(self.new_cid())
+            c.set_sites([x for x in ss if x in SITES_ALL] or SITES_ALL if ss else SITES_ALL)
+            if ss:
+                self.bump('callback_derived_from_library_base' if derived else 'callback_with_partial_handlers')
             self.all_cbs.append(c)
             out.append(c)
         return out
+
+    def cb_sites(self, cid):
+        for c in self.all_cbs:
+            if c.cid == cid:
+                return c.sites
+        return SITES_ALL
 
     def fmt_args(self, fmt):
         if fmt is None:
@@ -821,7 +856,7 @@ class World(object):
         st.extra['tpl'] = tpl
         st.extra['cfg_tpl'] = self.cfg_template
         yield
-        cbs = self.make_cbs(ncb)
+        cbs = self.make_cbs(ncb, op.get('cb_sites'))
         args = {}
         if raw:
             args['raw'] = True
@@ -2094,7 +2129,7 @@ class World(object):
         o = self.obj(d)
         if o.callbacks is None:
             o.callbacks = []
-        cbs = self.make_cbs(int(op.get('n', 1)))
+        cbs = self.make_cbs(int(op.get('n', 1)), op.get('sites'))
         for c in cbs:
             c.owner = o
         o.callbacks.extend(cbs)
@@ -2112,7 +2147,8 @@ class World(object):
         before = list(o.callbacks)
 
         def twin(c):
-            n = SimCallback(self.new_cid())
+            n = type(c)(self.new_cid())
+            n.set_sites(c.sites)
             if op.get('equal', True):
                 n.label = c.label
             n.owner = o
